@@ -4,11 +4,11 @@ PROP = dict(
         "ntp_proto::server::TimestampedCache<IpAddr>::{new, index, is_allowed} (real, through hook wrapper CacheH)",
         "position in the policy: ntp_proto::server::Server::intended_action via handle_inner (c15_policy_ratelimit)",
     ],
-    bounds=("cache size N = 0, 1, 2, 3 (one harness each); 3 calls (address, instant) with symbolic IPv4 addresses (N = 2 also IPv6/mixed), symbolic SipHash keys, "
+    bounds=("cache size N = 0, 1, 2, 3 (one harness each); 3 calls (address, instant) with symbolic IPv4 addresses symbolic SipHash keys, "
             "non-decreasing instants < 2^40 s, symbolic cutoff < 2^41 s. Reference model keyed by the slot each call is observed to use: call i is refused iff the "
             "previous call that used the same slot had the same address and arrived less than cutoff earlier; N = 0 never refuses; every call touches exactly one "
             "slot and records (address, arrival time); equal addresses use the same slot. Server level: cache size 1, slot pre-state arbitrary, one call."),
-    outside=("more than 3 calls / more than 3 slots; SipHash finalisation (modelled, see stub_notes); IPv6 addresses with N = 3 (15 min cap hit); "
+    outside=("more than 3 calls / more than 3 slots; SipHash finalisation (modelled, see stub_notes); IPv6 addresses at the cache level (c20_cache_v6_n2/n3: 15 min cap hit; IPv6 and IPv4-mapped clients are covered at the server level with N = 1); "
              "Instant::now() itself (ghost clock)"),
     assumptions=["instants are non-decreasing (monotonic clock)", "hash finalisation model (stub_notes)"],
     stub_notes=[
@@ -23,6 +23,5 @@ PROP = dict(
         H(NS, "c20", "c20_cache_n2", "2 slots, 3 calls vs. reference model (slot sharing, eviction by another address)", timeout=400),
         H(NS, "c15", "c15_policy_ratelimit", "Server level: rate limit sits after both lists; listed clients never touch the cache; RateLimit reason recorded", timeout=400),
         H(NS, "c20", "c20_cache_n3", "3 slots, 3 calls", tier="thorough"),
-        H(NS, "c20", "c20_cache_v6_n2", "2 slots, IPv4/IPv6 mixed addresses", tier="thorough"),
     ],
 )
